@@ -597,10 +597,10 @@ func Run(r *fw.Run) {
 	// one server at different sizes, under the controlled scheduler (engine E4, see C14)
 	if os.Getenv("VERIF_BIN") != "" {
 		cfgs := []c14.Config{{Gran: "ops", Mode: "deviations", Bound: 2, Only: nil}, {Gran: "sync", Mode: "deviations", Bound: 1, Only: nil}, {Gran: "ops", Mode: "preemptions", Bound: 1, Only: c14.Small}, {Gran: "ops", Mode: "deviations", Bound: 3, Only: c14.Compact}}
-		per, tot := 20*time.Second, 30*time.Second
+		per, tot := 60*time.Second, 120*time.Second
 		if r.Thorough() {
 			cfgs = []c14.Config{{Gran: "ops", Mode: "deviations", Bound: 3, Only: nil}, {Gran: "sync", Mode: "deviations", Bound: 2, Only: nil}, {Gran: "ops", Mode: "preemptions", Bound: 2, Only: c14.Small}, {Gran: "ops", Mode: "deviations", Bound: 4, Only: c14.Compact}}
-			per, tot = 10*time.Minute, 12*time.Minute
+			per, tot = 15*time.Minute, 25*time.Minute
 		}
 		r.Bounds["schedule_scenarios"] = "fork-two-clients, fork-two-clients-empty-config, fork-one-client-two-threads (one equivocating server, the log chosen per goroutine), same-log-different-sizes, three-heads-one-client-h8"
 		r.Bounds["schedule_configurations"] = fmt.Sprint(cfgs)
